@@ -1,4 +1,5 @@
 import Skv.Lemmas.PipelinePermits
+import Skv.Lemmas.LockOrder
 import Skv.Props.C05
 /-!
 # C17 — commits and shutdown always complete; no internal queue overflows
@@ -97,3 +98,36 @@ def overflowRun : List POp :=
 theorem C17_fixed_overflow_schedule :
     let s := (PState.initWith 2 1024 7 8).run overflowRun
     s.panicked = false ∧ s.queue.length = 7 ∧ s.permits = 0 := by decide
+
+/-! ## store level: nested locks of readers, flush, rotation and compaction
+
+`opIter`, `opFlush`, `opRotate`, `opCompact` are the nested lock sections of
+`Snapshot::collect_iter_state_from`, `CoreInner::flush_immutable_to_sst`, `CoreInner::rotate_memtable`
+and `Compactor::update_manifest` (ids 0 = active_memtable, 1 = level_manifest, 2 = immutable_memtables).
+For any number of threads each running any disciplined operation: no circular wait exists in any
+state (`C17_no_circular_wait`), so as long as a thread is unfinished one of them can move
+(`C17_lock_progress`); the four operations of the code are disciplined (`C17_ops_disciplined`, a
+finite check over the hand-written table, which the correspondence stream compares with the
+acquisition order observed at the yield points of the real operations under every interleaving). -/
+
+theorem C17_no_circular_wait (s : LSys) (hr : ∀ t ∈ s, disciplined t.prog = true) (S : List Nat) (hne : S ≠ [])
+    (hS : ∀ i ∈ S, ∃ (t : LThread) (r : LReq), s[i]? = some t ∧ t.next = some r ∧
+      ∃ j ∈ S, ∃ (u : LThread) (h : LReq), s[j]? = some u ∧ h ∈ u.held ∧ h.lock = r.lock) : False :=
+  no_stuck_set s hr S hne hS
+
+theorem C17_lock_progress (s : LSys) (hr : ∀ t ∈ s, disciplined t.prog = true)
+    (hlive : ∃ (i : Nat) (t : LThread), s[i]? = some t ∧ t.done = false) :
+    ∃ (i : Nat) (t : LThread), s[i]? = some t ∧ t.done = false ∧ blocked s i = false :=
+  some_thread_can_step s hr hlive
+
+theorem C17_ops_disciplined :
+    disciplined opIter = true ∧ disciplined opFlush = true ∧ disciplined opRotate = true ∧
+      disciplined opCompact = true := by decide
+
+/-- the order used before the repair (immutable memtables before the manifest in the reader) is not
+disciplined, and with it a reader and a compaction reach a state in which both are blocked -/
+theorem C17_old_reader_order_deadlocks :
+    let old : List LAct := [.acq ⟨0, .rd⟩ true, .acq ⟨2, .rd⟩ true, .acq ⟨1, .rd⟩ true]
+    disciplined old = false ∧
+      (let s : LSys := [{ prog := old, pc := 2 }, { prog := opCompact, pc := 1 }]
+       blocked s 0 = true ∧ blocked s 1 = true) := by decide
